@@ -71,6 +71,14 @@ def configurations(tier):
                             if dec == 'MemoryBeliefPropagationDecoder':
                                 cfg['dec_kwargs'] = {'max_bp_iter': 10}
                             out.append(cfg)
+    # larger lattices, many random errors: cluster growth / merging in the
+    # union-find decoder only gets deep on lattices of side >= 7
+    for size in ([(7, 7), (8, 8)] if tier == 'quick' else [(7, 7), (8, 8), (6, 9), (9, 9), (10, 8)]):
+        for p in (0.1, 0.15):
+            out.append({'decoder': 'UnionFindDecoder', 'code': 'Toric2DCode', 'size': list(size),
+                        'noise': 'depol', 'p': p, '_stress': 120 if tier == 'quick' else 600})
+            out.append({'decoder': 'MatchingDecoder', 'code': 'Toric2DCode', 'size': list(size),
+                        'noise': 'depol', 'p': p, '_stress': 120 if tier == 'quick' else 600})
     # MatchingDecoder restricted to one error type (its contract is per sector)
     for et in ('X', 'Z'):
         out.append({'decoder': 'MatchingDecoder', 'code': 'Toric2DCode', 'size': [3, 4],
@@ -81,6 +89,7 @@ def configurations(tier):
 @common.safe
 def drive(cfg):
     tier = cfg.pop('_tier')
+    stress = cfg.pop('_stress', 0)
     rng = np.random.default_rng(common.seed() + abs(hash(D.config_label(cfg))) % 2**31)
     rec = D.Recorder(cfg)
     code, em = rec.code, rec.em
@@ -102,7 +111,9 @@ def drive(cfg):
             e = np.zeros(2 * n, dtype=np.uint8)
             e[int(q)] = e[n + int(q)] = 1
             syns.append(code.measure_syndrome(e))
-    for _ in range(8 if tier == 'quick' else 40):
+    if stress:
+        syns = syns[:1]
+    for _ in range(stress or (8 if tier == 'quick' else 40)):
         e = em.generate(code, cfg['p'], rng=rng)
         syns.append(code.measure_syndrome(e))
     syns.append(syns[0])                                 # zero syndrome again, late
